@@ -69,32 +69,89 @@ NodeRemove(void *p)
   return false;
 }
 
-// Every address that has ever been a queue node (for classifying ASan reports).
+// Every address that has ever been a queue node (for classifying ASan reports), with the node's life-cycle state
+// as seen at the hook points: 0 free/unknown, 1 taken (in use by a request), 2 cached (handed back for reuse).
 constexpr uint64_t kEverTab = 1ULL << 16;
 inline std::atomic<uint64_t> g_ever_tab[kEverTab];
-inline void
+inline std::atomic<uint32_t> g_ever_state[kEverTab];
+inline std::atomic<uint64_t> g_node_state_violations[3];  // [1] taken while in use, [2] handed back twice
+inline std::atomic<uint64_t> g_node_state_sample[3];
+inline int64_t
 EverInsert(const void *p)
 {
   const auto a = reinterpret_cast<uint64_t>(p);
   auto h = NodeHash(a) & (kEverTab - 1);
   for (uint64_t i = 0; i < kEverTab; ++i, h = (h + 1) & (kEverTab - 1)) {
     auto cur = g_ever_tab[h].load(kRlx);
-    if (cur == a) return;
-    if (cur == 0 && g_ever_tab[h].compare_exchange_strong(cur, a, kRlx)) return;
-    if (cur == a) return;
+    if (cur == a) return static_cast<int64_t>(h);
+    if (cur == 0 && g_ever_tab[h].compare_exchange_strong(cur, a, kRlx)) return static_cast<int64_t>(h);
+    if (cur == a) return static_cast<int64_t>(h);
   }
+  return -1;
 }
-inline bool
-EverContains(uint64_t addr)
+inline int64_t
+EverFind(uint64_t addr)
 {
   const auto a = addr & ~7ULL;
   auto h = NodeHash(a) & (kEverTab - 1);
   for (uint64_t i = 0; i < kEverTab; ++i, h = (h + 1) & (kEverTab - 1)) {
     auto cur = g_ever_tab[h].load(kRlx);
-    if (cur == a) return true;
-    if (cur == 0) return false;
+    if (cur == a) return static_cast<int64_t>(h);
+    if (cur == 0) return -1;
   }
-  return false;
+  return -1;
+}
+inline bool
+EverContains(uint64_t addr)
+{
+  return EverFind(addr) >= 0;
+}
+// hook events
+inline void
+NodeStateTaken(const void *p)
+{
+  const auto i = EverInsert(p);
+  if (i < 0) return;
+  const auto prev = g_ever_state[i].exchange(1, kRlx);
+  if (prev == 1) {
+    g_node_state_violations[1].fetch_add(1, kRlx);
+    g_node_state_sample[1].store(reinterpret_cast<uint64_t>(p), kRlx);
+  }
+}
+inline void
+NodeStateRecycled(const void *p)
+{
+  const auto i = EverInsert(p);
+  if (i < 0) return;
+  const auto prev = g_ever_state[i].exchange(2, kRlx);
+  if (prev == 2) {
+    g_node_state_violations[2].fetch_add(1, kRlx);
+    g_node_state_sample[2].store(reinterpret_cast<uint64_t>(p), kRlx);
+  }
+}
+inline void
+NodeStateFreed(const void *p)
+{
+  const auto i = EverFind(reinterpret_cast<uint64_t>(p));
+  if (i >= 0) g_ever_state[i].store(0, kRlx);
+}
+
+// turn the recorded life-cycle violations into C12 findings (called at the end of a run)
+inline void
+ReportNodeStateViolations()
+{
+  if (g_node_state_violations[1].load() != 0) {
+    Violate("C12", "mcs:queue-node-taken-for-a-new-request-while-still-in-use",
+            Fmt("%" PRIu64 " time(s) a lock operation took a queue node (e.g. %" PRIx64 ") from a thread's cache although the node was "
+                "still in use by another request (it had been handed back for reuse while still referenced, or handed back twice)",
+                g_node_state_violations[1].load(), g_node_state_sample[1].load()));
+  }
+  if (g_node_state_violations[2].load() != 0) {
+    Violate("C12", "mcs:queue-node-handed-back-for-reuse-twice",
+            Fmt("%" PRIu64 " time(s) a queue node (e.g. %" PRIx64 ") was handed back for reuse although it was already sitting in a "
+                "thread's cache (two releasers both concluded that they were the last user)",
+                g_node_state_violations[2].load(), g_node_state_sample[2].load()));
+  }
 }
 
 /*------------------------------------------------------------------------------
@@ -155,14 +212,14 @@ void
 operator delete(void *p) noexcept
 {
   if (p == nullptr) return;
-  if (vf::g_nodes_live.load(vf::kRlx) > 0) vf::NodeRemove(p);
+  if (vf::g_nodes_live.load(vf::kRlx) > 0 && vf::NodeRemove(p)) vf::NodeStateFreed(p);
   free(p);
 }
 void
 operator delete(void *p, std::size_t) noexcept
 {
   if (p == nullptr) return;
-  if (vf::g_nodes_live.load(vf::kRlx) > 0) vf::NodeRemove(p);
+  if (vf::g_nodes_live.load(vf::kRlx) > 0 && vf::NodeRemove(p)) vf::NodeStateFreed(p);
   free(p);
 }
 void
